@@ -17,6 +17,8 @@ PATS = ["*.go", "**/*.go", "sub/*", "*/*", "**", "**/*", "sub/**", "*", "s*/*.go
         # alternation in a directory segment (also before the first wildcard), with a hidden branch, and in the middle of a path
         "{sub,zz}/*.go", "{sub,.hid}/*.go", "{sub,zz}/**/*.go", "sub/{deep,zz}/*", "{.m,a}.go*",
         # `?` and character classes, also in a directory segment before the first `*`, and matching a leading dot
+        # the same patterns written with `./`
+        "./*.go", "./sub/*.go", "./**/*.go", "sub/./*.go", "./sub/**/*.go", "./{sub,zz}/*.go",
         "?.go*", "s?b/*.go", "[sz]*/*.go", "su[a-c]/*", "sub/[a-e].go*", "?m.go*", "**/?.go"]
 
 
@@ -27,6 +29,8 @@ def chars(s):
 def pat_struct(p):
     segs = []
     for seg in p.split("/"):
+        if seg == ".":          # `./x` and `x/./y` are other spellings of `x` and `x/y`: a `.` segment is the directory itself
+            continue
         if seg == "**":
             segs.append([{"k": "dstar"}])
             continue
